@@ -28,6 +28,10 @@ type wireModel struct {
 	problem []string
 	stack   map[*ssa.Function]bool
 	recur   map[*ssa.Function]bool // layer functions on a static-call cycle: never inlined
+	// unroll: members of a call cycle are expanded in place once (a call to a member that is already
+	// being expanded stays a call event); results are not cached in this mode
+	unroll bool
+	decide func(ifi *ssa.If) (int, bool)
 }
 
 func isLayer(f *ssa.Function) bool {
@@ -463,24 +467,57 @@ func mapDests(ev string, call *ssa.Call) string {
 
 // RSeqs returns the success-path read sequences of a StreamReader method.
 func (m *wireModel) RSeqs(f *ssa.Function) [][]string {
-	if s, ok := m.rcache[f]; ok {
-		return s
+	if !m.unroll {
+		if s, ok := m.rcache[f]; ok {
+			return s
+		}
 	}
 	m.stack[f] = true
 	defer delete(m.stack, f)
-	seqs, ok := core.SuccessSeqs(f, core.SeqOpts{EdgeLabel: wireEdgeLabel, Classify: func(in ssa.Instruction, inLoop bool) []string {
+	var decide func(ifi *ssa.If) (int, bool)
+	if m.unroll && m.decide != nil {
+		decide = m.decide
+	}
+	seqs, ok := core.SuccessSeqs(f, core.SeqOpts{EdgeLabel: wireEdgeLabel, Decide: decide, Classify: func(in ssa.Instruction, inLoop bool) []string {
 		call, ok := in.(*ssa.Call)
 		if !ok {
 			return nil
 		}
 		var out []string
 		switch {
-		case call.Call.StaticCallee() != nil && m.recur[call.Call.StaticCallee()]:
+		case call.Call.StaticCallee() != nil && m.recur[call.Call.StaticCallee()] && (!m.unroll || m.stack[call.Call.StaticCallee()]):
 			var args []string
 			for _, a := range call.Call.Args[1:] {
 				args = append(args, core.Sym(a))
 			}
 			out = []string{"call:" + call.Call.StaticCallee().Name() + "(" + strings.Join(args, ",") + ")"}
+		case call.Call.StaticCallee() != nil && m.recur[call.Call.StaticCallee()] && m.unroll:
+			// expand a cycle member in place, once
+			callee := call.Call.StaticCallee()
+			var args []string
+			for _, a := range call.Call.Args {
+				args = append(args, core.Sym(a))
+			}
+			savedDecide := m.decide
+			m.decide = nil // keys are fixed for the root only
+			sub := m.RSeqs(callee)
+			m.decide = savedDecide
+			var alts []string
+			for _, s := range sub {
+				var es []string
+				for _, e := range s {
+					es = append(es, mapDests(substitute(e, args), call))
+				}
+				alts = append(alts, strings.Join(es, " "))
+			}
+			sort.Strings(alts)
+			if len(alts) == 1 {
+				if alts[0] != "" {
+					out = strings.Split(alts[0], " ")
+				}
+			} else {
+				out = []string{"alt{" + strings.Join(alts, "|") + "}"}
+			}
 		case core.IsCallTo(call, "io", "ReadFull") && f == m.rprim:
 			out = []string{"RAWREAD($1)"}
 		case core.IsCallTo(call, "io", "CopyN"):
@@ -554,7 +591,9 @@ func (m *wireModel) RSeqs(f *ssa.Function) [][]string {
 	if !ok {
 		seqs = [][]string{{"TOO-MANY-PATHS"}}
 	}
-	m.rcache[f] = seqs
+	if !m.unroll {
+		m.rcache[f] = seqs
+	}
 	return seqs
 }
 
